@@ -52,6 +52,9 @@ class NeedSplit(Exception):
         self.cls = cls
         self.syms = syms
 
+    def __reduce__(self):
+        return (NeedSplit, (self.cls, self.syms))
+
 
 class Finding(Exception):
     """a definite violation found while interpreting (over-read, bad free ...)"""
@@ -59,6 +62,9 @@ class Finding(Exception):
     def __init__(self, rule, key, loc, detail):
         Exception.__init__(self, detail)
         self.rule, self.key, self.loc, self.detail = rule, key, loc, detail
+
+    def __reduce__(self):
+        return (Finding, (self.rule, self.key, self.loc, self.detail))
 
 
 def is_null(v):
